@@ -291,12 +291,55 @@ def restore_batch_child():
         try:
             obj = pickle.loads(data)
             got = describe_real(obj)
-            out.append(None if got == desc else "restored %r, pickled %r" % (got, desc))
+            msg = None if got == desc else "restored %r, pickled %r" % (got, desc)
+            if msg is None:
+                msg = mutate_restored(obj)
+            out.append(msg)
         except Exception as exc:  # noqa: BLE001
             out.append("unpickling raised %s: %s" % (type(exc).__name__, exc))
     sys.stdout.buffer.write(pickle.dumps(out, protocol=4))
     sys.stdout.buffer.flush()
     return 0
+
+
+def mutate_restored(obj):
+    """In the fresh interpreter: detach and re-attach a leaf a number of times and compare the
+    recomputed navigation values of the root with the harness's own walk (state that a node carried
+    over from the other process must not survive a mutation here)."""
+    root = obj
+    guard = 0
+    while root.parent is not None and guard < 10000:
+        root = root.parent
+        guard += 1
+
+    def walk(r):
+        out, stack = [], [(r, 0)]
+        deepest = 0
+        while stack:
+            n, d = stack.pop()
+            out.append(n)
+            deepest = max(deepest, d)
+            for c in reversed(n.children):
+                stack.append((c, d + 1))
+        return out, deepest
+
+    for round_ in range(24):
+        nodes, deepest = walk(root)
+        if root.size != len(nodes) or root.height != deepest or len(root.descendants) != len(nodes) - 1 or len(root.leaves) != sum(1 for n in nodes if not n.children):
+            return "after %d mutations in the fresh interpreter: root.size=%r height=%r, the links give %d nodes, height %d" % (
+                round_, root.size, root.height, len(nodes), deepest)
+        leaves = [n for n in nodes if not n.children and n.parent is not None]
+        if not leaves:
+            return None
+        leaf = leaves[round_ % len(leaves)]
+        par = leaf.parent
+        leaf.parent = None
+        nodes2, deepest2 = walk(root)
+        if root.size != len(nodes2) or root.height != deepest2:
+            return "after detaching a leaf in the fresh interpreter: root.size=%r height=%r, the links give %d nodes, height %d" % (
+                root.size, root.height, len(nodes2), deepest2)
+        leaf.parent = par
+    return None
 
 
 def post_chunk(pending, tier):
@@ -396,6 +439,10 @@ def run(cfg, ops=None, rng=None):
                     continue
                 # attribute values are read without touching .parent/.children
                 attrs = [attrs_of(nd) for nd in world.nodes]
+                if not lazy:
+                    # an ordinary program has usually looked at its tree before it saves it
+                    for nd in world.nodes[:: max(1, len(world.nodes) // 4)]:
+                        nd.size, nd.height, nd.depth, nd.path, nd.leaves
                 try:
                     data, centry = take_snapshot(world.nodes[entry], op["method"])
                 except RecursionError:
